@@ -654,6 +654,10 @@ def rule_a7(ctx):
                 if a2.node["lhs"].get("k") == "var" and a2.node["lhs"]["n"] == var and (a2.b, a2.i) != (t.b, t.i):
                     reassign.add((a2.b, a2.i))
             for c in clears:
+                # completed first, cleared afterwards: every path from the take to the clear passes a use
+                if (c.b, c.i) not in fn.reach((t.b, t.i + 1), blocked=lambda b, i, e: (b, i) in uses):
+                    r.ob(fn, "%s = %s: completed / handed on before the field is cleared at line %s" % (var, show(fld), c.line))
+                    continue
                 seen = fn.reach((c.b, c.i + 1), blocked=lambda b, i, e: (b, i) in uses or (b, i) in reassign,
                                 edge_ok=lambda b, k: not (b in nulledge and k == nulledge[b]))
                 if (fn.exit, 0) in seen:
